@@ -2,6 +2,7 @@ package rules
 
 import (
 	"go/ast"
+	"go/constant"
 	"go/token"
 	"go/types"
 	"reflect"
@@ -350,4 +351,97 @@ func recvFields(c *cx, f *eng.Fn, tn *types.TypeName, write bool, seen map[*eng.
 		return true
 	})
 	return out, all
+}
+
+// c19EnumLoops (C19.5): a loop that walks the members of an enum up to a
+// declared member must include that member: `for i := First; i < Last; step`
+// whose step sequence lands exactly on Last silently drops Last (an encoder or
+// decoder then ignores one value of the vocabulary). Bounds whose name marks
+// them as sentinels (max, end, count, num, len, limit) are exempt.
+func c19EnumLoops(c *cx, id string, in func(f *eng.Fn) bool) {
+	n := 0
+	for _, f := range c.allFns() {
+		if f.Body == nil || !in(f) {
+			continue
+		}
+		f.WalkBody(func(nd ast.Node) bool {
+			fs, ok := nd.(*ast.ForStmt)
+			if !ok || fs.Init == nil || fs.Cond == nil || fs.Post == nil {
+				return true
+			}
+			as, ok := fs.Init.(*ast.AssignStmt)
+			if !ok || len(as.Lhs) != 1 || len(as.Rhs) != 1 {
+				return true
+			}
+			iv, _ := as.Lhs[0].(*ast.Ident)
+			be, ok := ast.Unparen(fs.Cond).(*ast.BinaryExpr)
+			if iv == nil || !ok {
+				return true
+			}
+			lid, _ := ast.Unparen(be.X).(*ast.Ident)
+			if lid == nil || f.Info().ObjectOf(lid) != f.Info().ObjectOf(iv) {
+				return true
+			}
+			var bound *types.Const
+			switch b := ast.Unparen(be.Y).(type) {
+			case *ast.Ident:
+				bound, _ = f.Info().Uses[b].(*types.Const)
+			case *ast.SelectorExpr:
+				bound, _ = f.Info().Uses[b.Sel].(*types.Const)
+			}
+			if bound == nil {
+				return true
+			}
+			if _, named := bound.Type().(*types.Named); !named {
+				return true
+			}
+			start := f.ConstVal(as.Rhs[0])
+			if start == nil || start.Kind() != constant.Int || bound.Val().Kind() != constant.Int {
+				return true
+			}
+			n++
+			a, _ := constant.Int64Val(start)
+			b, _ := constant.Int64Val(bound.Val())
+			step := ""
+			switch p := fs.Post.(type) {
+			case *ast.IncDecStmt:
+				if p.Tok == token.INC {
+					step = "++"
+				}
+			case *ast.AssignStmt:
+				if p.Tok == token.SHL_ASSIGN && len(p.Rhs) == 1 {
+					if cv := f.ConstVal(p.Rhs[0]); cv != nil && cv.ExactString() == "1" {
+						step = "<<=1"
+					}
+				}
+			}
+			lands := false
+			if step != "" && a <= b && a >= 0 {
+				for v, k := a, 0; v <= b && k < 70; k++ {
+					if v == b {
+						lands = true
+					}
+					if step == "++" {
+						v++
+					} else {
+						if v == 0 {
+							break
+						}
+						v <<= 1
+					}
+				}
+			}
+			lname := strings.ToLower(bound.Name())
+			sentinel := false
+			for _, s := range []string{"max", "end", "count", "num", "len", "limit", "last"} {
+				if strings.Contains(lname, s) && s != "last" {
+					sentinel = true
+				}
+			}
+			ok2 := !(be.Op == token.LSS && lands && !sentinel)
+			c.r.Check(id, f, "loop over "+eng.TypeStr(bound.Type())+" up to "+bound.Name(), "T: a loop over the members of an enum includes the member named as its bound", fs.Pos(), ok2, "the loop runs while "+iv.Name+" < "+bound.Name()+" and its steps land exactly on "+bound.Name()+": that member is never visited")
+			return true
+		})
+	}
+	c.r.Note("%s: %d loops bounded by a declared enum constant examined", id, n)
 }
